@@ -8,6 +8,7 @@ HARNESS = "router"
 HARNESS_ARGS = ["c15"]
 ALLOWED_AXIOMS = []
 READY = True
+RUN_IMPORT = "Router.UrlRun"
 
 RULE = ("cases drawn from one PRNG (VERIF_SEED): op0 escape(text), op1 unescape(raw), op2 "
         "RequestUrl::parse('/path?query#frag') with raw escapes (valid, invalid-UTF-8, nested %25xx, "
